@@ -59,6 +59,33 @@ def run(tier, seed, replay=None):
     cv = ck.validate(DIR, "SccTrace", [c for c, _ in ctl], "negative controls")
     for (c, exp), v in zip(ctl, cv):
         ck.control(f"corrupted trace rejected ({exp} -> {v['why']})", (not v["ok"]) and exp in v["why"], str(v))
+    # ---- step level: visit / finish / pop events of Tarjan's algorithm against SccAlgs' stack discipline and root test
+    sc = cases[: 400 if tier == "quick" else 5000]
+    st = [r for r in run_tasks("scc", "run_scc_steps", sc, timeout=120) if isinstance(r, dict) and "steps" in r]
+    if not st:          # hooks absent (guard off / code restructured): the step level is lost, the return level above still decides C14
+        ck.notes.append("no scc_visit / scc_finish / scc_pop events were recorded: Tarjan step level skipped")
+        ck.rule = "see C14 quick rule; step level skipped"
+        return ck.finish()
+    sv = ck.validate(DIR, "TarjanSteps", st, "visit / finish / pop events of strongly_connected_components", timeout=3000)
+    for v in sv:
+        for d in v.get("div", []):
+            ck.divergences["tarjan:" + d] = ck.divergences.get("tarjan:" + d, 0) + 1
+    ck.extra["tarjan_step_level"] = {"calls": len(st), "events_replayed": sum(v.get("steps", 0) for v in sv),
+                                     "calls_with_divergence": sum(1 for v in sv if v.get("div"))}
+    sctl = []
+    for t, v in zip(st, sv):
+        pops = [i for i, e in enumerate(t["steps"]) if e["k"] == "pop" and len(e["comp"]) >= 2]
+        fins = [i for i, e in enumerate(t["steps"]) if e["k"] == "finish"]
+        if v.get("div") or not pops or len(fins) < 2:
+            continue
+        c = copy.deepcopy(t); c["steps"][pops[0]]["comp"] = c["steps"][pops[0]]["comp"][:-1]; sctl.append((c, "Pop.component_is_not"))
+        c = copy.deepcopy(t); c["steps"][fins[0]]["low"] += 1; sctl.append((c, "Finish.lowlink_root_test"))
+        c = copy.deepcopy(t); del c["steps"][pops[0]]; sctl.append((c, "Pop.missing|Finish.stack_not_empty"))
+        break
+    if not sctl:
+        raise tlc.MachineryError("no Tarjan trace suitable for step-level controls")
+    for (c, exp), v in zip(sctl, ck.validate(DIR, "TarjanSteps", [c for c, _ in sctl], "step-level negative controls")):
+        ck.control(f"corrupted Tarjan event flagged ({exp}*)", any(d.startswith(tuple(exp.split("|"))) for d in v.get("div", [])), str(v)[:300])
     ck.rule = ("random digraphs with 1-8 listed nodes (+0-2 outside neighbours), duplicate edges, self loops, 35% DAG-shaped, shuffled "
                "node and neighbour orders, int/str/tuple labels; non-trivial = >= 2 edges; distinct by hash of the input")
     ck.assumptions = ["the graph is the one induced by the listed nodes (neighbours outside the node list are not nodes) for all three functions"]
